@@ -8,6 +8,7 @@ import (
 	"math"
 	"os"
 	"sort"
+	"strconv"
 	"strings"
 	"sync"
 	"sync/atomic"
@@ -96,6 +97,12 @@ func main() {
 			}
 			for _, pt := range d.Pts {
 				lon, lat := pt[0], pt[1]
+				if d.Proj == "merc" && math.Abs(math.Abs(lon-pval(d.Params, "lon_0"))-180) < 1e-9 {
+					// the seam of the projection: the inverse may answer 180 + 1 ulp, which
+					// the forward rightly refuses; the seam positions of the lattice are
+					// for the single-step comparison with proj4js (C09) only
+					continue
+				}
 				if g.name == "G1" {
 					lon -= d.Pm
 				}
@@ -216,4 +223,15 @@ func main() {
 	rep.AddEvals(n)
 	rep.AddNontrivial(nontrivial)
 	rep.Finish()
+}
+
+// pval reads a numeric +key=value from a PROJ.4 parameter string (0 when absent).
+func pval(params, key string) float64 {
+	for _, f := range strings.Fields(params) {
+		if strings.HasPrefix(f, "+"+key+"=") {
+			v, _ := strconv.ParseFloat(strings.TrimPrefix(f, "+"+key+"="), 64)
+			return v
+		}
+	}
+	return 0
 }
